@@ -9,8 +9,14 @@
 #undef private
 #include "nd.h"
 using namespace rtosc;
+#ifndef MAXMSG
 #define MAXMSG 16
-#define RS (MAXMSG * 2)
+#endif
+#ifndef NMSG
+#define NMSG 2
+#endif
+#define RS (MAXMSG * NMSG)   /* 32 (power of two) or 36 (not) */
+#define MB 32                 /* size of the message scratch buffers */
 #ifndef NQ
 #define NQ 0
 #endif
@@ -18,14 +24,14 @@ using namespace rtosc;
 #define LA 0
 #endif
 static const int QS[3] = { Q0, Q1, Q2 };
-static char ghost[3][MAXMSG + 12];
-static char newmsg[MAXMSG + 12];
+static char ghost[3][MB];
+static char newmsg[MB];
 static char before[RS];
 
 static void mkmsg(char *o, int size, char name)
 {
     /* "/x\0\0" "," tags "\0.." payload; size 8: no args, 12: "i", 16: "ii", 24: "iii" (tags need 8 bytes) */
-    for(int j = 0; j < MAXMSG + 12; j++) o[j] = 0;
+    for(int j = 0; j < MB; j++) o[j] = 0;
     o[0] = '/'; o[1] = name; o[4] = ',';
     int n = size == 24 ? 3 : (size - 8) / 4;
     for(int j = 0; j < n; j++) o[5 + j] = 'i';
@@ -34,7 +40,7 @@ static void mkmsg(char *o, int size, char name)
 
 extern "C" void harness(void)
 {
-    ThreadLink tl(MAXMSG, 2);                /* real constructor */
+    ThreadLink tl(MAXMSG, NMSG);                /* real constructor */
     ringbuffer_t *ring = tl.ring;
 #ifdef RFIX
     off_t r = RFIX;   /* read operations: one query per read index */
@@ -70,7 +76,7 @@ extern "C" void harness(void)
     CHECK((off_t)ring->read == r && (off_t)ring->read_lookahead == (r + latotal) % RS, "C06 a write never moves the read positions");
     if(accept) {
         CHECK((off_t)ring->write == (r + total + size) % RS, "C06 an accepted message is appended");
-        int same = 1; for(int j = 0; j < MAXMSG + 12; j++) if(j < size && ring->buffer[(r + total + j) % RS] != newmsg[j]) same = 0;
+        int same = 1; for(int j = 0; j < MB; j++) if(j < size && ring->buffer[(r + total + j) % RS] != newmsg[j]) same = 0;
         CHECK(same, "C06 an accepted message is queued byte-identical");
         WITNESS("C06 write accepted");
     } else {
